@@ -31,6 +31,7 @@ REGISTRY = {
         "tests": [
             {"name": "TestC03Frames", "shards": 8, "shards_thorough": 16},
             {"name": "TestC03Wire", "shards": 4, "shards_thorough": 16},
+            {"name": "TestC03Concurrent", "shards": 4, "shards_thorough": 16, "race": True, "crash_is_violation": True},
         ],
         "require": {"c03:control:0": 210, "c03:control:1": 224, "c03:control:2": 141, "c03:control:3": 133, "c03:control:4": 111, "c03:control:5": 104, "c03:control:6": 116, "c03:control:7": 111, "c03:control:8": 93, "c03:control:9": 122, "c03:data": 2159, "c03:rejected": 2471, "c03:restamps:1": 608, "c03:restamps:2": 574, "c03:restamps:3": 464, "c03:restamps:4": 512, "c03:wire:Forward": 1061, "c03:wire:ForwardAsync": 1091, "c03:wire:Reply": 795, "c03:wire:Send": 776, "c03:wire:SendAsync": 804, "c03:wire:SendSECS2": 675, "c03:wire:active": 2604, "c03:wire:passive": 2599},
     },
